@@ -45,6 +45,8 @@ def check_case(ctx, case):
         tags.append('crlf')
         if '# Legend:' in base:
             tags.append('legend_crlf')
+    if '# Legend:' in base and '\n\n' in base[base.index('# Legend:'):].rstrip('\n'):
+        tags.append('legend_with_inner_blank_line')
     ctx.note(key_of(base, var), base != var, *tags)
     if a.root.attrs != b.root.attrs:
         return 'root attributes differ: %r vs %r' % (a.root.attrs, b.root.attrs)
@@ -73,8 +75,12 @@ def run_shard(ctx, shard):
         rows = list(rows)
         if rng.random() < 0.5:
             rows.append('# Legend:')
+            if rng.random() < 0.15:
+                rows.append('')   # an empty line right after the header
             for k in range(rng.randint(0, 4)):
                 rows.append(rng.choice(NAMES) + rng.choice([' = ', '=', ' =  ']) + '{' + rng.choice(DECLS) + '}')
+                if rng.random() < 0.2:
+                    rows.append('')   # an empty line between entries: blanks on it must not matter either
         base = '\n'.join(rows) + '\n'
         case = {'base': base, 'variant': make_variant(rng, base)}
         ctx.run_case(case)
